@@ -1,4 +1,14 @@
 // C20 ingestion glue for Covariance (recorder stub on the count, length <= 3).
+// An iterator that promises nothing about its length (size_hint() is the default (0, None), no ExactSizeIterator,
+// no DoubleEndedIterator): glue that consults size hints or iterates from the back must still ingest every item.
+struct Opaque<I>(I);
+impl<I: Iterator> Iterator for Opaque<I> {
+    type Item = I::Item;
+    fn next(&mut self) -> Option<I::Item> {
+        self.0.next()
+    }
+}
+
 fn rec_cov_add(s: &mut Covariance, x: f64, y: f64) {
     s.n = (s.n.rotate_left(1) ^ x.to_bits()).rotate_left(3) ^ y.to_bits() ^ 0x9e3779b97f4a7c15;
 }
@@ -23,8 +33,11 @@ fn cov_ingest_glue() {
     }
     let bv: Covariance = s.iter().cloned().collect();
     let br: Covariance = s.iter().collect();
+    let bvo: Covariance = Opaque(s.iter().cloned()).collect();
+    let bro: Covariance = Opaque(s.iter()).collect();
     kani::cover!(l == 3);
     assert!(same_cov(&a, &bv) && same_cov(&a, &br));
+    assert!(same_cov(&a, &bvo) && same_cov(&a, &bro));
     let base = Covariance { avg_x: kani::any(), sum_x_2: kani::any(), avg_y: kani::any(), sum_y_2: kani::any(), sum_prod: kani::any(), n: kani::any() };
     let mut e0 = base.clone();
     for &(x, y) in s {
@@ -35,7 +48,7 @@ fn cov_ingest_glue() {
     let mut e2 = base.clone();
     e2.extend(s.iter());
     let mut e3 = base.clone();
-    e3.extend(s[..cut].iter().cloned());
-    e3.extend(s[cut..].iter());
+    e3.extend(Opaque(s[..cut].iter().cloned()));
+    e3.extend(Opaque(s[cut..].iter()));
     assert!(same_cov(&e1, &e0) && same_cov(&e2, &e0) && same_cov(&e3, &e0));
 }
